@@ -39,7 +39,7 @@ RULE = ("prog: 2..6 flows, each waits for `match E(<subset of the payload, occas
         "`match UnhandledEvent(event=\"E\", <parameters>)` — set off by the external event (trigger flow starts tgt / tgt waits for E and ends or aborts / nobody handles E), with declared "
         "priorities and specificities of their own, all shapes / wait constructs / pre statements / wrappers of the path programs, 30% of the trigger-flow programs with ROUNDS (a new tgt "
         "instance per round). In every program run every positive score computed under a flow priority is re-computed without it (score = priority x unscaled score), tagged "
-        "`score:<branch>:prio-declared|prio-default` with the branch names enumerated from the source (harness/translate/c05.py). bscore: 1 500 / 30 000 (event, reference event) pairs built per "
+        "`score:<branch>:prio-declared|prio-default` with the branch names enumerated from the source (harness/translate/c05.py). bscore: 2 000 / 30 000 (event, reference event) pairs built per "
         "branch (flow-id start, any-flow start, internal, external, action event) scored with and without a priority by the real function, against Lean eventScore / scoreBranch / scaleBy (C05.bscore).")
 TRUSTED_BASE = [
     "record/replay harness harness/props/C05.py (recorders around _resolve_action_conflicts/_abort_flow/random.choice, rank mapping of floats, "
@@ -215,7 +215,7 @@ def g_prog_paths(rng):
 ITRIG_KINDS = ["startflow_id", "startflow_id", "startflow_any", "flowstarted", "flowfinished", "flowfinished", "flowfailed", "unhandled"]
 
 
-def g_prog_internal(rng):
+def g_prog_internal(rng, mini=False):
     """Observer / interceptor flows that react to an INTERNAL event: the start of a flow (`match StartFlow(flow_id="tgt")`, or
     `match StartFlow(<parameters>)` for the start of any flow with these parameters), `FlowStarted` / `FlowFinished` / `FlowFailed` of a flow
     (by event name, by `tgt(<all parameters>).Finished()`, or through a flow reference `$r.Finished()`), or `UnhandledEvent(event="E", …)`.
@@ -228,16 +228,20 @@ def g_prog_internal(rng):
     n = rng.choice([2, 2, 2, 3, 3, 4])
     loops = LOOPS[: rng.choice([1, 1, 1, 2])]
     poolsize = rng.choice([2, 2, 3, 3])
+    if mini:
+        # small programs (2..3 direct observers of one loop, no paths), weighted towards the two StartFlow branches
+        kind = rng.choice(["startflow_id"] * 3 + ["startflow_any"] * 6 + ["flowstarted", "flowfinished", "unhandled"])
+        n, loops = rng.choice([2, 3, 3]), LOOPS[:1]
     via = "self" if kind == "flowfailed" or (kind == "flowfinished" and rng.random() < 0.6) else "trig"
     flows = []
     for i in range(n):
         keys = rng.sample(list(payload), rng.randrange(0, len(payload) + 1))
         pat = {k: payload[k] for k in keys}
-        shape = rng.choice(["direct"] * 6 + ["await", "helper", "when"])
+        shape = "direct" if mini else rng.choice(["direct"] * 6 + ["await", "helper", "when"])
         f = {"pat": pat, "prio": rng.choice(PRIOS + ["0.9", "0.5", "0.3"]), "loop": rng.choice(loops), "shape": shape,
              "kind": "send" if shape == "direct" and rng.random() < 0.15 else "action", "act": rng.randrange(poolsize),
              "ref": False, "stop_after": False}
-        if rng.random() < 0.5:
+        if not mini and rng.random() < 0.5:
             add_path(rng, f, payload, True)
         form = "bare"
         if kind in ("flowstarted", "flowfinished", "flowfailed"):
@@ -272,8 +276,10 @@ def g_prog_internal(rng):
                 w["alt"] = {}
         flows.append(f)
     # at least two declared priorities differ in most programs: priority is the only way to rank equally specific observers
-    if rng.random() < 0.5:
+    if mini or rng.random() < 0.5:
         flows[0]["prio"], flows[1]["prio"] = rng.sample(["0.9", "0.5", "0.81", "0.3", None], 2)
+        if mini and n > 2:
+            flows[2]["prio"] = None
         if rng.random() < 0.5:
             flows[1]["pat"], flows[1]["iform"] = dict(flows[0]["pat"]), flows[0]["iform"]
             if flows[1]["iform"] == "ref" and (flows[1]["shape"] not in ("direct", "when") or (flows[1].get("wait") or {}).get("kind") in ("await_or", "await_and")):
@@ -288,7 +294,7 @@ def g_prog_internal(rng):
         case["mode"] = "start"
     if rng.random() < 0.3:
         case["args2"] = True
-    if (via == "trig" or kind == "unhandled") and kind != "flowfailed" and rng.random() < 0.3:
+    if (via == "trig" or kind == "unhandled") and kind != "flowfailed" and rng.random() < (0.15 if mini else 0.3):
         # ROUNDS: the same observers react to the internal event again (a new instance of tgt is started with re-drawn parameter values)
         make_rounds(rng, case)
         for f in flows:
@@ -428,7 +434,7 @@ def g_score(rng):
     return {"kind": "score", "n": n, "a": a, "b": b}
 
 
-BSCORE_BRANCHES = ["startflow_id", "startflow_any", "internal", "internal", "umim_plain", "umim_action"]
+BSCORE_BRANCHES = ["startflow_id", "startflow_any", "internal", "internal", "umim_plain", "umim_action", "umim_action"]
 BSCORE_INTERNAL = ["FlowStarted", "FlowFinished", "FlowFailed", "UnhandledEvent", "StopFlow", "FinishFlow", "UserIntentLog"]
 
 
@@ -441,7 +447,7 @@ def g_bscore(rng):
     sub = {k: (v if rng.random() < 0.9 else 3) for k, v in params.items() if rng.random() < 0.5}
     if rng.random() < 0.05:
         sub["z"] = 1
-    prio = rng.choice(SCORE_PRIOS)
+    prio = None if rng.random() < 0.35 else rng.choice(SCORE_PRIOS[3:])
     case = {"kind": "bscore", "branch": br, "prio": prio, "start_args": []}
     if br in ("startflow_id", "startflow_any"):
         eargs = dict({"flow_id": "tgt", "flow_instance_uid": "u1", "source_flow_instance_uid": "u0", "source_head_uid": "h0", "flow_hierarchy_position": "0.1"}, **params)
@@ -506,11 +512,16 @@ def gen_cases(rng, tier):
             c["choices"] = "tree"  # systematic exploration of the tie-break tree (exhaustive when <= 4 heads tie)
             c["extra_choices"] = [[rng.randrange(6) for _ in range(6)] for _ in range(2)]
         cases.append(c)
+    for _ in range(200 if tier == "quick" else 4000):
+        # small internal-trigger programs: the two StartFlow branches x {priority declared, not declared} in numbers
+        c = g_prog_internal(rng, mini=True)
+        c["choices"] = [[rng.randrange(6) for _ in range(6)] for _ in range(2)]
+        cases.append(c)
     for _ in range(n_fn):
         cases.append(g_fn(rng))
     for _ in range(2000 if tier == "quick" else 40000):
         cases.append(g_score(rng))
-    for _ in range(1500 if tier == "quick" else 30000):
+    for _ in range(2000 if tier == "quick" else 30000):
         cases.append(g_bscore(rng))
     return cases
 
@@ -1256,7 +1267,7 @@ def _bscore_record(case, obs):
     obs["_sig"] = None
     obs["_nt"] = "exc" not in obs and obs["unscaled"] > 0.0
     pos = "exc" not in obs and obs["unscaled"] > 0.0
-    obs["_tags"] = ["kind:bscore", f"bscore:{case['branch']}:" + ("prio-declared" if case["prio"] and float(case["prio"]) != 1.0 else "prio-none") + (":pos" if pos else ":nonpos")]
+    obs["_tags"] = ["kind:bscore", f"bscore:{case['branch']}:" + ("prio-declared" if case["prio"] and float(case["prio"]) != 1.0 else "prio-none") + ("" if pos else ":no-match")]
     return obs
 
 
@@ -1292,7 +1303,7 @@ def run_impl(case):
                           {"score_sign": sign, "near": near}]]
         obs["_sig"] = None
         obs["_nt"] = a["k"] != b["k"] or a["prio"] != b["prio"]
-        obs["_tags"] = ["kind:score", "near-tie-skipped" if near else "order-compared", f"sign:{sign}"]
+        obs["_tags"] = ["kind:score", "near-tie-skipped" if near else "order-compared"]
         return obs
     return _run_impl(case)
 
@@ -1835,10 +1846,8 @@ def _tags(case, obs):
     calls = all_calls(case, obs)
     t.append(f"calls:{min(len(calls), 9)}")
     if case["kind"] == "prog":
-        t.append(f"runs:{min(len(obs['runs']), 12)}")
         if case.get("choices") == "tree":
             t.append("tie-tree-complete" if obs.get("tree_complete") else "tie-tree-truncated")
-        t.append(f"flows:{len(case['flows'])}")
         t.append("mode:" + case["mode"])
         for f in case["flows"]:
             t.append("shape:" + f["shape"])
@@ -1853,11 +1862,10 @@ def _tags(case, obs):
         if case.get("evtype"):
             t.append("trigger:action-event")
         if case.get("itrig"):
-            t.append("trigger:internal:" + case["itrig"]["kind"] + ":" + case["itrig"]["via"])
-            for f in case["flows"]:
-                t.append(f"imatch:{case['itrig']['kind']}:{f.get('iform', 'bare')}:" + ("prio-declared" if f["prio"] and float(f["prio"]) != 1.0 else "prio-none"))
-        for r in obs["runs"]:
-            t += r.get("score_tags", [])
+            t.append("trigger:internal:" + case["itrig"]["kind"])
+            for form in sorted({f.get("iform", "bare") for f in case["flows"]} - {"bare"}):
+                t.append("imatch:" + form)
+        t += sorted({x for r in obs["runs"] for x in r.get("score_tags", [])})
         if case.get("loopbody"):
             t.append("loop-body")
         if case.get("rounds"):
